@@ -5,3 +5,4 @@ import Obl.Sub
 import Obl.Ids
 import Obl.Macat
 import Obl.Opt
+import Obl.Core
